@@ -112,6 +112,12 @@ def kits():
                                   field('r_after_optional', 5, 'double', behaviors=[fb.OPTIONAL, fb.REQUIRED]),
                                   field('not_required', 6, 'int32', behaviors=[fb.IMMUTABLE, fb.INPUT_ONLY])]),
         ('get', '/v1/kit/behaviours/{name=shelves/*}'), 'KitBehaviours')
+    # REQUIRED fields whose names have segments that start with a digit (JSON names max2dTiles, sha256sum)
+    out['required-digit-names'] = (
+        message('KitDigits', [field('name', 1, 'string', required=True), field('max_2d_tiles', 2, 'int32', required=True),
+                              field('sha_256sum', 3, 'string', required=True), field('v2_id', 4, 'string', required=True),
+                              field('view_mode', 5, 'string')]),
+        ('get', '/v1/kit/digits/{name=shelves/*}'), 'KitDigits')
     out['required-nested-path'] = (
         message('KitNested', [field('a', 1, Q('A'), required=True), field('r_str', 2, 'string', required=True)]),
         ('get', '/v1/kit/nested/{a.b=apps/*}'), 'KitNested')
